@@ -719,7 +719,10 @@ pub fn execute(ctx: &Ctx, wd: &WorkerDir, job: &Job, p: &Perturb, st: &mut RunSt
         0 => {
             if hard_fired {
                 // I2: no partial success
-                if got.status == 0 {
+                // (a tool that ends quietly with status 0 when its reader went away — EPIPE — follows a
+                // common CLI convention; that case is not judged, only the prefix property below is)
+                let epipe = matches!(p.wr_fail_at, Some((_, 32))) && !got.log.counts.contains_key("rd_hard") && !got.log.counts.contains_key("wr_crash");
+                if got.status == 0 && !epipe {
                     return Some(Violation { invariant: "I2", detail: "a hard I/O error or crash fired but the process reported success (exit 0)".into() });
                 }
                 if got.log.counts.contains_key("rd_hard") && !got.stdout.is_empty() {
